@@ -160,7 +160,8 @@ def session_specs(tier, modes=MODES):
     def add(name, cont, chunk, calls, cost=1, **kw):
         S.append(dict(name=name, n=1, d=1, sc=1, fc=1000, cont=cont, chunk=chunk, calls=calls, cost=cost, checker='session', fresh=False, getters=False, **kw))
     for mname, cont, chunk in modes:
-        add('%s: later session, 2 calls (<=2 files each), any finalized file may already exist' % mname, cont, chunk, [call(1, 2), call(1, 2)], 10)
+        add('%s: later session, 2 calls (<=2 files, then 1 file), any finalized file may already exist' % mname, cont, chunk, [call(1, 2), call(1, 1)], 10)
+        if tier == 'thorough': add('%s: later session, 2 calls (<=2 files each)' % mname, cont, chunk, [call(1, 2), call(1, 2)], 40)
         if tier == 'thorough' and not cont:
             add('%s: later session, 2 blocks then 1 block' % mname, cont, chunk, [call(2, 2), call(1, 2)], 40)
     return S
